@@ -345,9 +345,10 @@ static int setup_domain(const char *name)
         for (k = 0; k < NK; ++k) { dom.keys[k].i = ks[k]; add_probe_i(ks[k], 2 * k); }
         add_probe_i(-1000000, 3); add_probe_i(-1, 5); add_probe_i(1, 7); add_probe_i(1000000, 9);
     } else if (!strcmp(name, "charp")) {
-        static const char *ks[NK] = { "a", "AB", "abc", "B", "ba", "C", "cA" };
-        static const char *alt[NK] = { "A", "ab", "ABC", "b", "BA", "c", "Ca" };
-        static const char *gaps[NK + 1] = { "", "aa", "abb", "abd", "b0", "bb", "c0", "cb" };
+        /* the last key contains byte 0xff (a comparator must treat it as an unsigned character on both sides) */
+        static const char *ks[NK] = { "a", "AB", "abc", "B", "ba", "C", "c\xff" };
+        static const char *alt[NK] = { "A", "ab", "ABC", "b", "BA", "c", "C\xff" };
+        static const char *gaps[NK + 1] = { "", "aa", "abb", "abd", "b0", "bb", "c0", "c\xff\x01" };
         dom.cmp = set_compare_charp;
         for (k = 0; k < NK; ++k) { dom.keys[k].s = (char *)ks[k]; add_probe_s(alt[k], 2 * k); }
         for (k = 0; k <= NK; ++k) add_probe_s(gaps[k], 2 * k - 1);
